@@ -58,4 +58,15 @@ def symbolMatches (z sym : Nat) : Bool := coded.any fun r => r.1.beq z && r.2.1.
 def nameMatches (z name : Nat) : Bool :=
   (coded.any fun r => r.1.beq z && r.2.2.beq (lower name)) || (altCoded.any fun r => r.1.beq z && r.2.beq (lower name))
 
+/-- documented special names of the hydrogen isotopes: (mass number, symbol, name).  Every other isotope is named
+`<element name><A>` with symbol `<element symbol><A>`. -/
+def hydrogenIsotopes : List (Nat × String × String) := [(1, "H", "protium"), (2, "D", "deuterium"), (3, "T", "tritium")]
+def hydrogenIsotopesCoded : List (Nat × Nat × Nat) := hydrogenIsotopes.map fun r => (r.1, enc r.2.1, enc r.2.2)
+
+/-- an isotope called `name` / `sym` with mass number `a` is named after the element (`z`, `elName`, `elSym`):
+`<elName><a>` / `<elSym><a>` (letter case ignored), or one of the special hydrogen names when `z = 1` -/
+def isotopeNamedAfter (z elName elSym a name sym : Nat) : Bool :=
+  ((lower name).beq (lower (cat elName (strNat a))) && (lower sym).beq (lower (cat elSym (strNat a)))) ||
+  (z.beq 1 && hydrogenIsotopesCoded.any fun r => r.1.beq a && r.2.1.beq sym && r.2.2.beq (lower name))
+
 end Cherab.Periodic
